@@ -51,7 +51,10 @@ def deep_families(k):
 
 
 WS = ["\xa0", "\x0b", "\x0c", "\x1c", "\x1d", "\x1e", "\x1f", "\x85", "\u1680", "\u2000", "\u2003", "\u200a", "\u2028", "\u2029", "\u202f", "\u205f",
-      "\u3000", "&nbsp;", "&#160;", "&emsp;", "&#x2003;", "&#12;", "&#x85;", " ", "\t", "\u200b", "\ufeff"]
+      "\u3000", "&nbsp;", "&#160;", "&emsp;", "&#x2003;", "&#12;", "&#x85;", " ", "\t", "\u200b", "\ufeff",
+      # character references in every spelling the entity helpers accept or must reject
+      "&#X41;", "&#XA0;", "&#X0A;", "&#xD;", "&#0;", "&#x110000;", "&#99999999;", "&#xD800;", "&#1234567890;", "&NotARealEntity;", "&#;", "&#x;",
+      "&AMP;", "&amp", "&#X;", "&#xFFFFFFFF;"]
 
 
 def ws_doc(r):
@@ -79,6 +82,12 @@ def ws_doc(r):
         lines = body.split("\n")
         body = "\n".join((pre if i == 0 else pad) + ln if ln or i == 0 else ln for i, ln in enumerate(lines))
     return body
+
+
+CAP_DOCS = ["[a](b)", "[ref]\n\n[ref]: /url", "![a](b)", "*a* **b** ~~c~~", "`c` <http://a.b> <b>x</b> &amp; \\*", "> q\n> > r", "- a\n  - b\n    - c",
+            "1. x\n   > y\n   > - z", "# h\n\ntext\n===", "```\nf\n```", "    code", "|a|b|\n|-|-|\n|[c](d)|*e*|", "<div>\n*x*\n</div>", "[a [b](c)](d)",
+            "[![i](s)](l)", "*a [b *c* d](e) f*", "\"q\" -- (c) ...", "a  \nb\\\nc", "[a][b][c]\n\n[c]: /c", "> - [x](y)\n>   ```\n>   z\n>   ```", "***\n---", "[", "![", "*", "`",
+            "<", "&", "\\", "[a](", "[a](<b", "- [a](b)\n- ![c](d)"]
 
 
 def cli_case(data: bytes):
@@ -175,6 +184,16 @@ def run(ctx) -> int:
                     d = total_on(configs.make_md(cfg), fam, limit=8)
                     if d:
                         return {"config": cfg, "src": fam if len(fam) < 400 else fam[:200] + "...", "family_len": len(fam), **d}
+        # (iv') every construct at the lowest nesting caps
+        for mn in (1, 2, 3):
+            for base in (configs.STANDARD[0], configs.STANDARD[1], configs.STANDARD[4]):
+                cfg = dict(base, options=dict(base["options"], maxNesting=mn))
+                md = configs.make_md(cfg)
+                for src in CAP_DOCS:
+                    counts["deep"] += 1
+                    d = total_on(md, src, limit=5)
+                    if d:
+                        return {"config": cfg, "src": src, **d}
         # (v) command line on arbitrary bytes
         for k in range(int(60 * scale)):
             data = bytes(r.randrange(256) for _ in range(r.randrange(0, 60))) if k % 2 else r.choice(docs.seeds()).encode()[: r.randrange(80)] + bytes([r.randrange(128, 256)])
